@@ -1241,9 +1241,13 @@ class _iterinfo(object):
                     for wday, n in rr._bynweekday:
                         if n < 0:
                             i = last+(n+1)*7
+                            if i < first:
+                                continue    # nth weekday not in range
                             i -= (self.wdaymask[i]-wday) % 7
                         else:
                             i = first+(n-1)*7
+                            if i > last:
+                                continue    # nth weekday not in range
                             i += (7-self.wdaymask[i]+wday) % 7
                         if first <= i <= last:
                             self.nwdaymask[i] = 1
